@@ -12,14 +12,21 @@ CLS = ["DeltaCurrent", "DeltaPlusCurrent", "SingleExponentialCurrent", "DoubleEx
 
 
 def ctor_kwargs(case, inplace):
+    """keyword arguments of the constructor / partialconstructor; the names listed in case["omit"] are LEFT OUT
+    (the harness then expects the documented defaults)"""
     k = case["cls"]
-    kw = dict(spike_charge=case["Q"], interp_tol=case["tol"],
-              current_overbound=case["cur_ob"], spike_overbound=case["spk_ob"], inplace=inplace)
-    mode = ["previous", "nearest"][case["mode"]]
-    if k in (0, 1):
-        kw["interp_mode"] = mode
-    else:
-        kw["spike_interp_mode"] = mode
+    omit = set(case.get("omit", []))
+    kw = dict(spike_charge=case["Q"])
+    if "tol" not in omit:
+        kw["interp_tol"] = case["tol"]
+    if "cur_ob" not in omit:
+        kw["current_overbound"] = case["cur_ob"]
+    if "spk_ob" not in omit:
+        kw["spike_overbound"] = case["spk_ob"]
+    if "inplace" not in omit:
+        kw["inplace"] = inplace
+    if "mode" not in omit:
+        kw["interp_mode" if k in (0, 1) else "spike_interp_mode"] = ["previous", "nearest"][case["mode"]]
     if k == 2:
         kw["time_constant"] = case["tau"]
     if k == 3:
@@ -33,17 +40,29 @@ def build(case, inplace):
     partial constructor (how layers build them); returns (synapse, connection or None)"""
     cls = getattr(neural, CLS[case["cls"]])
     kw = ctor_kwargs(case, inplace)
+    omit = set(case.get("omit", []))
     how = case.get("build", "direct")
     conn = None
     if how == "direct":
-        s = cls(tuple(case["shape"]), case["dt"], delay=case["delay"], batch_size=case["batch"], **kw)
+        extra = {}
+        if "delay" not in omit:
+            extra["delay"] = case["delay"]
+        if "batch" not in omit:
+            extra["batch_size"] = case["batch"]
+        s = cls(tuple(case["shape"]), case["dt"], **extra, **kw)
     elif how == "partial":
         s = cls.partialconstructor(**kw)(tuple(case["shape"]), case["dt"], case["delay"], case["batch"])
     else:
-        conn = neural.LinearDense(tuple(case["shape"]), (2,), case["dt"], synapse=cls.partialconstructor(**kw),
-                                  delay=(case["delay"] if case["delay"] > 0 else None), batch_size=case["batch"])
+        extra = {}
+        if "delay" not in omit:
+            extra["delay"] = case["delay"] if case["delay"] > 0 else None
+        if "batch" not in omit:
+            extra["batch_size"] = case["batch"]
+        conn = neural.LinearDense(tuple(case["shape"]), (2,), case["dt"], synapse=cls.partialconstructor(**kw), **extra)
         s = conn.synapse
         KEEP.append(conn)
+    if "inplace" in omit and inplace:
+        s.inplace = True        # only the twin run (opposite write mode) gets here: the case itself expects the default
     KEEP.append(s)
     return s, conn
 
